@@ -19,10 +19,37 @@ import (
 
 // foldInt evaluates an integer SSA expression in which param stands for the concrete value i.
 func foldInt(v ssa.Value, param ssa.Value, i int64) (int64, bool) {
-	if v == param {
-		return i, true
+	return foldIntEnv(v, map[ssa.Value]int64{param: i}, 0)
+}
+
+// foldIntEnv folds integer arithmetic under an assignment of constants to parameters; a call to a single-block
+// repo function that only computes (an extracted mask/index helper) is folded through its return expression.
+func foldIntEnv(v ssa.Value, env map[ssa.Value]int64, depth int) (int64, bool) {
+	if n, ok := env[v]; ok {
+		return n, true
 	}
+	param, i := ssa.Value(nil), int64(0)
+	_ = i
+	foldInt := func(v ssa.Value, _ ssa.Value, _ int64) (int64, bool) { return foldIntEnv(v, env, depth) }
 	switch x := v.(type) {
+	case *ssa.Call:
+		h, ok := x.Call.Value.(*ssa.Function)
+		if !ok || depth > 2 || len(h.Blocks) != 1 || len(h.Params) != len(x.Call.Args) {
+			return 0, false
+		}
+		ret, ok := h.Blocks[0].Instrs[len(h.Blocks[0].Instrs)-1].(*ssa.Return)
+		if !ok || len(ret.Results) != 1 {
+			return 0, false
+		}
+		inner := map[ssa.Value]int64{}
+		for k, a := range x.Call.Args {
+			n, ok := foldIntEnv(a, env, depth)
+			if !ok {
+				return 0, false
+			}
+			inner[h.Params[k]] = truncTo(n, h.Params[k].Type())
+		}
+		return foldIntEnv(ret.Results[0], inner, depth+1)
 	case *ssa.Const:
 		if x.Value == nil || x.Value.Kind() != constant.Int {
 			return 0, false
@@ -289,40 +316,24 @@ func checkC16(R *Run) {
 	load := map[string]int{}
 	loadConst := map[string]string{}
 	um := findMethodDecl(hp, "AccessBitmap", "UnmarshalYAML")
-	var legacyOK *bool
-	legacyWhy := ""
 	if um == nil {
 		R.und("access-tables", "AccessBitmap.UnmarshalYAML", "-", "method not found")
 	} else {
-		var ts *ast.TypeSwitchStmt
-		ast.Inspect(um.Body, func(n ast.Node) bool {
-			if t, ok := n.(*ast.TypeSwitchStmt); ok && ts == nil {
-				ts = t
-			}
-			return true
-		})
-		if ts == nil {
-			R.und("access-tables", "AccessBitmap.UnmarshalYAML", P.pos(um.Pos()), "no type switch over the decoded value (accepted idiom: switch v := flags.(type) with a map case and a list case)")
+		cases := typeCasesOf(hp, um.Body)
+		if len(cases) == 0 {
+			R.und("access-tables", "AccessBitmap.UnmarshalYAML", P.pos(um.Pos()), "no dispatch on the dynamic type of the decoded value (accepted idioms: switch v := flags.(type) with a map case and a list case, or the if / else-if chain of comma-ok assertions)")
 		} else {
 			recvName := ""
 			if len(um.Recv.List[0].Names) > 0 {
 				recvName = um.Recv.List[0].Names[0].Name
 			}
-			for _, cc := range ts.Body.List {
-				clause := cc.(*ast.CaseClause)
-				if len(clause.List) != 1 {
-					continue
-				}
-				tt := hp.TypesInfo.TypeOf(clause.List[0])
-				if tt == nil {
-					continue
-				}
-				switch u := tt.Underlying().(type) {
+			for _, tc := range cases {
+				switch tc.typ.Underlying().(type) {
 				case *types.Map:
 					dup := false
 					closed := true
 					var odd []string
-					for _, st := range clause.Body {
+					for _, st := range tc.body {
 						key, cval, cname, ok := parseFlagIf(hp, st, recvName)
 						if !ok {
 							closed = false
@@ -337,13 +348,8 @@ func checkC16(R *Run) {
 						loadConst[key] = cname
 					}
 					if !closed || dup {
-						R.und("access-tables", "UnmarshalYAML named-flag case", P.pos(clause.Pos()), "the case contains statements other than `if f, ok := v[KEY].(bool); ok && f { bits.Set(CONST) }` or duplicate keys: "+strings.Join(odd, ", "))
+						R.und("access-tables", "UnmarshalYAML named-flag case", P.pos(tc.pos), "the case contains statements other than `if f, ok := v[KEY].(bool); ok && f { bits.Set(CONST) }` or duplicate keys: "+strings.Join(odd, ", "))
 					}
-				case *types.Slice:
-					_ = u
-					ok, why := parseLegacyCase(hp, clause, recvName)
-					legacyOK = &ok
-					legacyWhy = why
 				}
 			}
 		}
@@ -487,11 +493,14 @@ func checkC16(R *Run) {
 	}
 	R.floor("access-tables", 80)
 
-	// ---- legacy-array
-	if legacyOK == nil {
-		R.und("legacy-array", "UnmarshalYAML list case", "hotline/access.go", "no []interface{} case found")
-	} else {
-		R.check(*legacyOK, "legacy-array", "UnmarshalYAML list case", "hotline/access.go", "bits[i] = byte(list[i])", "legacy numeric form is not a byte-for-byte copy: "+legacyWhy)
+	// ---- legacy-array (on the SSA form, so that the loop may be a range or an index loop)
+	if uf := R.mustFn("(*hotline.AccessBitmap).UnmarshalYAML"); uf != nil {
+		ok, why := legacyCopy(uf)
+		if why == "none" {
+			R.und("legacy-array", "UnmarshalYAML list case", "hotline/access.go", "no store of a list element into the bitmap found")
+		} else {
+			R.check(ok, "legacy-array", "UnmarshalYAML list case", "hotline/access.go", "bits[i] = byte(list[i]) for every i < len(list)", "legacy numeric form is not a byte-for-byte copy: "+why)
+		}
 	}
 
 	// ---- wire-raw
@@ -634,49 +643,182 @@ func parseFlagIf(p *packages.Package, st ast.Stmt, recv string) (key string, val
 	return k, n, name, true
 }
 
-// parseLegacyCase recognises `for i, v := range LIST { bits[i] = byte(v.(int)) }`.
-func parseLegacyCase(p *packages.Package, clause *ast.CaseClause, recv string) (bool, string) {
-	if len(clause.Body) != 1 {
-		return false, "more than one statement"
+// typeCase: one arm of a dispatch on the dynamic type of a value.
+type typeCase struct {
+	typ  types.Type
+	body []ast.Stmt
+	pos  token.Pos
+}
+
+// typeCasesOf finds the first dispatch on a dynamic type in body: a type switch, or an if / else-if chain whose
+// arms are `if x, ok := E.(T); ok { … }`.
+func typeCasesOf(p *packages.Package, body *ast.BlockStmt) []typeCase {
+	var out []typeCase
+	ast.Inspect(body, func(n ast.Node) bool {
+		if out != nil {
+			return false
+		}
+		switch t := n.(type) {
+		case *ast.TypeSwitchStmt:
+			for _, cc := range t.Body.List {
+				clause := cc.(*ast.CaseClause)
+				if len(clause.List) != 1 {
+					continue
+				}
+				if tt := p.TypesInfo.TypeOf(clause.List[0]); tt != nil {
+					out = append(out, typeCase{tt, clause.Body, clause.Pos()})
+				}
+			}
+			return false
+		case *ast.IfStmt:
+			var arms []typeCase
+			for cur := t; cur != nil; {
+				as, ok := cur.Init.(*ast.AssignStmt)
+				if !ok || len(as.Lhs) != 2 || len(as.Rhs) != 1 {
+					break
+				}
+				ta, ok := as.Rhs[0].(*ast.TypeAssertExpr)
+				okID, ok2 := as.Lhs[1].(*ast.Ident)
+				cond, ok3 := cur.Cond.(*ast.Ident)
+				if !ok || !ok2 || !ok3 || ta.Type == nil || cond.Name != okID.Name {
+					break
+				}
+				if tt := p.TypesInfo.TypeOf(ta.Type); tt != nil {
+					arms = append(arms, typeCase{tt, cur.Body.List, cur.Pos()})
+				}
+				next, _ := cur.Else.(*ast.IfStmt)
+				cur = next
+			}
+			if len(arms) >= 2 {
+				out = arms
+				return false
+			}
+		}
+		return true
+	})
+	return out
+}
+
+// legacyCopy: the method stores byte(list[i].(int)) into bits[i] with the same i, i running over 0..len(list)-1,
+// list being the decoded value asserted to a slice.  why == "none" when no such store exists at all.
+func legacyCopy(fn *ssa.Function) (bool, string) {
+	bits := fn.Params[0]
+	found := false
+	why := "none"
+	eachInstr(fn, func(ins ssa.Instruction) {
+		st, ok := ins.(*ssa.Store)
+		if !ok {
+			return
+		}
+		dst, ok := st.Addr.(*ssa.IndexAddr)
+		if !ok || dst.X != ssa.Value(bits) {
+			return
+		}
+		// byte(elem.(int))
+		conv, ok := st.Val.(*ssa.Convert)
+		if !ok {
+			why = "the stored value is not a conversion of the element"
+			return
+		}
+		ta, ok := conv.X.(*ssa.TypeAssert)
+		if !ok {
+			why = "the stored value is not byte(element.(int)): it is modified on the way"
+			return
+		}
+		var list, idx ssa.Value
+		switch e := ta.X.(type) {
+		case *ssa.UnOp:
+			if ia, ok := e.X.(*ssa.IndexAddr); ok && e.Op == token.MUL {
+				list, idx = ia.X, ia.Index
+			}
+		case *ssa.Index:
+			list, idx = e.X, e.Index
+		}
+		if list == nil {
+			why = "the stored value is not an element of the list"
+			return
+		}
+		if idx != dst.Index {
+			why = "element i of the list is not stored into byte i of the bitmap (different indices)"
+			return
+		}
+		if _, isSlice := list.Type().Underlying().(*types.Slice); !isSlice {
+			why = "the source is not the decoded list"
+			return
+		}
+		lo, hi, ok := indexRange(idx)
+		if !ok || lo != 0 {
+			why = "the loop index does not start at 0 with step 1"
+			return
+		}
+		lc, ok := hi.(*ssa.Call)
+		if !ok || calleeName(&lc.Call) != "builtin.len" || lc.Call.Args[0] != list {
+			why = "the loop does not run to len(list)"
+			return
+		}
+		found = true
+	})
+	if found {
+		return true, ""
 	}
-	rs, ok := clause.Body[0].(*ast.RangeStmt)
-	if !ok || rs.Key == nil || rs.Value == nil {
-		return false, "not a range loop with index and value"
+	return false, why
+}
+
+// indexRange: idx takes the values lo, lo+1, … while idx < hi, in either of go/ssa's loop shapes (`for i := lo;
+// i < hi; i++` — test on the phi; `for i := range xs` — idx = phi+1 with phi starting at lo-1, test on idx).
+func indexRange(idx ssa.Value) (lo int64, hi ssa.Value, ok bool) {
+	test := func(blk *ssa.BasicBlock, v ssa.Value) (ssa.Value, bool) {
+		if len(blk.Instrs) == 0 {
+			return nil, false
+		}
+		iff, ok := blk.Instrs[len(blk.Instrs)-1].(*ssa.If)
+		if !ok {
+			return nil, false
+		}
+		c, ok := iff.Cond.(*ssa.BinOp)
+		if !ok || c.Op != token.LSS || c.X != v {
+			return nil, false
+		}
+		return c.Y, true
 	}
-	iName := rs.Key.(*ast.Ident).Name
-	vName := rs.Value.(*ast.Ident).Name
-	if len(rs.Body.List) != 1 {
-		return false, "loop body is not a single assignment"
+	switch x := idx.(type) {
+	case *ssa.Phi:
+		var init int64
+		haveInit, haveStep := false, false
+		for _, e := range x.Edges {
+			if k, ok := constInt(e); ok {
+				init, haveInit = k, true
+			} else if b, ok := e.(*ssa.BinOp); ok && b.Op == token.ADD && b.X == ssa.Value(x) {
+				if one, ok := constInt(b.Y); ok && one == 1 {
+					haveStep = true
+				}
+			} else {
+				return 0, nil, false
+			}
+		}
+		if h, ok := test(x.Block(), x); ok && haveInit && haveStep {
+			return init, h, true
+		}
+	case *ssa.BinOp:
+		phi, isPhi := x.X.(*ssa.Phi)
+		one, isOne := constInt(x.Y)
+		if x.Op != token.ADD || !isPhi || !isOne || one != 1 {
+			return 0, nil, false
+		}
+		var init int64
+		haveInit := false
+		for _, e := range phi.Edges {
+			if k, ok := constInt(e); ok {
+				init, haveInit = k, true
+			} else if e != ssa.Value(x) {
+				return 0, nil, false
+			}
+		}
+		if h, ok := test(x.Block(), x); ok && haveInit {
+			return init + 1, h, true
+		}
 	}
-	as, ok := rs.Body.List[0].(*ast.AssignStmt)
-	if !ok || as.Tok != token.ASSIGN || len(as.Lhs) != 1 || len(as.Rhs) != 1 {
-		return false, "loop body is not a plain assignment"
-	}
-	ix, ok := as.Lhs[0].(*ast.IndexExpr)
-	if !ok {
-		return false, "left side is not bits[i]"
-	}
-	if id, ok := ix.X.(*ast.Ident); !ok || id.Name != recv {
-		return false, "left side is not the receiver"
-	}
-	if id, ok := ix.Index.(*ast.Ident); !ok || id.Name != iName {
-		return false, "index is not the loop index"
-	}
-	call, ok := as.Rhs[0].(*ast.CallExpr)
-	if !ok || len(call.Args) != 1 {
-		return false, "right side is not byte(v.(int))"
-	}
-	if id, ok := call.Fun.(*ast.Ident); !ok || (id.Name != "byte" && id.Name != "uint8") {
-		return false, "right side is not a byte conversion"
-	}
-	ta, ok := call.Args[0].(*ast.TypeAssertExpr)
-	if !ok {
-		return false, "converted value is not a type assertion on the element"
-	}
-	if id, ok := ta.X.(*ast.Ident); !ok || id.Name != vName {
-		return false, "converted value is not the loop element"
-	}
-	return true, ""
+	return 0, nil, false
 }
 
 func init() { register("C16", checkC16) }
